@@ -117,6 +117,15 @@ CHECKS["C18"] = (MC,
     "Trusted: projection via git config --file; --system scope not covered; jinja2/jupyter_server stubs for importing the tools.",
     "DESIGN.md §5 C18")
 
+CHECKS["C17"] = (MC,
+    "TLC enumeration of repository histories (GitRefs.tla) replayed with real git (model trees compared with git's); TLC trace "
+    "validation (GitRefsTrace.tla: ExaminesExactlyReported, CwdPreservedAtEnd) of every changed_notebooks iteration against git's own report",
+    "TLC enumerates every history of edit/rm/stage/mv/commit actions up to the bound; each is replayed in a scratch repository and the "
+    "model's working tree / index / HEAD must equal git's. For every ref pair kind x cwd x path filter one trace event records git's raw "
+    "report (rename detection on), the pairs the generator yielded (content ids) and the cwd after each yield; TLC decides multiset "
+    "equality with the notebook entries of the report and cwd preservation.",
+    "Trusted: git's own report as reference; content ids embedded in the notebooks; rename heuristics are git's.", "DESIGN.md §5 C17")
+
 NOT_YET = {}
 
 PROPS = [json.loads(l)["id"] for l in open(os.path.join(VERIF, "properties.jsonl"))]
